@@ -43,6 +43,12 @@ CLAIMED = {
             "order independence, path agreement and operand preservation", "§4 C11"),
     "C12": ("bounded symbolic execution of all conversion variants and droplet properties in dims 1-3; z3 decides "
             "round trips, variant agreement, derivative sandwich for all r>=0, V>=0, h>0", "§4 C12"),
+    "C13": ("partial: bounded symbolic execution of interface_distance / interface_position / interface_curvature / "
+            "volume (2D) / volume_approx / surface_area (zero amplitudes) of the three perturbed classes at symbolic "
+            "angles, radius, centre and amplitudes, harmonics and trig as symbols; first-order agreement decided by "
+            "symbolic differentiation of the executed term at zero amplitudes (value and every coefficient, all modes "
+            "present); mode-index round trips l<=40; real-harmonic definition. Not decided: exact 3D volume (dblquad), "
+            "2D perimeter quadrature for non-zero amplitudes, stored sphere triangulations", "§4 C13"),
     "C14": ("bounded symbolic execution of DropletTracker.handle/finalize vs EmulsionTimeCourse.from_storage over <=3 "
             "frames with locate_droplets as an uninterpreted function of all its arguments, symbolic times / "
             "threshold / minimal radius, option sets enumerated; file round trip through the store model; "
